@@ -7,6 +7,7 @@ CONSTANTS
   Dev_SwallowLast = FALSE
   Dev_InvalidIsValid = FALSE
   Dev_ErrorIgnored = FALSE
+  Dev_ErrorOnlyWhenNotOk = FALSE
   Dev_EarlySuccess = FALSE
 INVARIANTS
   RuleHolds
